@@ -639,6 +639,43 @@ class Interp(object):
                     continue
                 res.extend(self.set_attr(s, base, target.attr, v, target))
             return res
+        if isinstance(target, ast.Subscript) and isinstance(target.slice, ast.Slice):
+            # lst[a:b] = seq (also lst[:] = seq): in place, on fully known lists with constant bounds
+            if target.slice.step is not None:
+                raise Unsupported("extended slice assignment at %s" % self.loc(target))
+            res = []
+            for (s, k, base) in self.eval(st, target.value):
+                if k != "val":
+                    res.append((s, k, base))
+                    continue
+                bounds = []
+                cur = s
+                bad = None
+                for part in (target.slice.lower, target.slice.upper):
+                    if part is None:
+                        bounds.append(None)
+                        continue
+                    outs = self.eval(cur, part)
+                    if len(outs) != 1 or outs[0][1] != "val" or not isinstance(outs[0][2], int) or isinstance(outs[0][2], bool):
+                        bad = part
+                        break
+                    cur = outs[0][0]
+                    bounds.append(outs[0][2])
+                if bad is not None or not (isinstance(base, Ref) and cur.obj(base).kind == "list" and cur.obj(base).items is not None):
+                    raise Unsupported("slice assignment on %r at %s" % (base, self.loc(target)))
+                try:
+                    kind, seq = self.iter_values(cur, v, target)
+                except AnalysisError:
+                    kind, seq = None, None
+                if kind != "concrete":
+                    raise Unsupported("slice assignment of a sequence the interpreter does not know at %s" % self.loc(target))
+                o = cur.wobj(base)
+                items = list(o.items)
+                items[bounds[0]:bounds[1]] = list(seq)
+                o.items = items
+                self.emit(cur, ("mutate", base.oid, o.label, "setslice"))
+                res.append((cur, "next", None))
+            return res
         if isinstance(target, ast.Subscript):
             res = []
             for (s, k, base) in self.eval(st, target.value):
